@@ -342,7 +342,7 @@ class Model(core.BfsModel):
         # numbers that must NOT be the same identity as a registered one although they agree with it modulo 2**16 /
         # 2**32 (wire fields are 16 bit, circuit ids 32 bit: a table key that folds the number makes them collide)
         own = {(p, n) for p, n in self.idents}
-        self.aliases = [(p, n + d) for p, n in self.idents[:n_ident] for d in (65536, -65536, 2 ** 32, -2 ** 32)
+        self.aliases = [(p, n + d) for p, n in self.idents[:n_ident] for d in (65536, 2 ** 32)
                         if (p, n + d) not in own]
 
     def params(self) -> dict:
@@ -585,15 +585,10 @@ class Model(core.BfsModel):
         # outstanding one modulo 2**16 / 2**32 names a different request, of which there is none
         for p_i, number in self.aliases:
             prefix, cls = self.prefixes[p_i], self.classes[p_i]
-            got = (rc.has(prefix, number), rc.get(prefix, number))
-            try:
-                cls(rc, number, 1.0)
-                refused = False
-            except RuntimeError:
-                refused = True
-            if got != (False, None) or refused:
-                v.append(("identity-alias", f"nothing was ever registered as ({prefix!r},{number}) but has/get = {got}, "
-                          f"constructor {'refused' if refused else 'accepted'} [{tag}]"))
+            got = (rc.has(prefix, number), rc.has(cls, number), rc.get(prefix, number))
+            if got != (False, False, None):
+                v.append(("identity-alias", f"nothing was ever registered as ({prefix!r},{number}) but has / has(cls) / "
+                          f"get = {got} [{tag}]"))
                 break
         # RandomNumberCache never picks an identity that is outstanding (its random() is forced onto ours)
         for p_i, prefix in enumerate(self.prefixes):
@@ -743,14 +738,14 @@ def configs(ctx: core.Ctx) -> list[tuple[Model, int]]:
             (Model("waiter-twins", waiter2, s, io_pop=False, waits=(None,)), 7),
         ]
     return [
-        (Model("one", one, s, pt_values=(0.0, 0.5), handler=True), 8),
+        (Model("one", one, s, pt_values=(0.0, 0.5), handler=True), 7),
         (Model("popper", popper, s, wide2), 5),
         (Model("twins", twins, s), 5),
         (Model("four", four, s, four_ids, io_pop=False), 4),
         (Model("selfpop", selfpop, s), 6),
         (Model("retry", retry, s), 4),
         (Model("popretry", popretry, s), 4),
-        (Model("waiter", waiter, s, waits=(None, 1.0)), 6),
+        (Model("waiter", waiter, s, waits=(None, 1.0)), 5),
     ]
 
 
